@@ -57,7 +57,7 @@ CHECKS = {
             "The real compute_exploitability is executed on indeterminate bounds (exact coefficient of every lower/upper bound for n=2..7(8)); every unit bound vector "
             "(basis) through the float path; all 4096 three-player bound vectors over four interval shapes and canonical tables of the real computer (n=3,4): value == "
             "binomially weighted gap, sign, zero iff degenerate; for each of them every vertex completion of the box is enumerated and the per-player maximum used by the "
-            "code compared with the maximum of the orderings-Shapley value over the vertices.",
+            "code compared with the maximum of the orderings-Shapley value over the vertices; numerical spot checks of the identity at n = 9, (12, 16,) 17.",
             "Linearity of the executed path is established by the guard run (no solver); float comparisons within 1e-11*scale*n.",
             "DESIGN.md §6 C05"),
     "C06": ("E5 generic-point execution + basis x orderings enumeration",
